@@ -125,7 +125,8 @@ Definition certify_ok (pre : dca) (cmd : dcmd) (err : bool) (post : dca) : bool 
 Definition shrunk_map_ok (newres : N) (pre post : certmap) : bool :=
   forallb (fun '(k, ic) =>
     let r := inter (i_res ic) newres in
-    if is_empty r then negb (amem k post)
+    if is_empty (i_res ic) then true          (* a certificate without resources (finding F02f) is outside shrink_exact: [cert_ok] *)
+    else if is_empty r then negb (amem k post)
     else match aget k post with Some c' => i_res c' =? r | None => false end) pre.
 
 Definition shrink_ok (pre : dca) (cmd : dcmd) (err : bool) (post : dca) : bool :=
